@@ -184,3 +184,15 @@ claim("C20", "model_checking",
       "free-threaded builds and races in alias on named definitions outside.",
       "AST-extracted step system + z3 bounded model checking over symbolic schedules", "DESIGN.md 4/C20",
       "stepbmc")
+
+claim("C08", "model_checking",
+      "The cache machine of conversions.py (which lru_cache'd functions transitively read _ratios/_offsets, "
+      "which caches each writer clears; empty paths are cached, exceptions are not) is read from the AST on "
+      "every run; z3 model-checks ALL histories of declare(i,j,ratio)/query(i,j) within the bound for a query "
+      "that answers differently from the same declarations on empty caches; the abstraction 'empty caches = "
+      "shortest declared path' is validated against the real in_unit on every declaration graph over 3 units; "
+      "a history found is replayed in two fresh subprocesses.",
+      "N <= 3 units and L <= 5 operations (quick), N <= 4, L <= 7 (thorough); queries on named units of one "
+      "dimension (the planner's compound-unit logic is abstracted to path search); lru_cache contract.",
+      "AST-extracted cache machine + z3 bounded model checking over symbolic histories", "DESIGN.md 4/C08",
+      "stepbmc")
